@@ -4,6 +4,6 @@ package hk
 func Available() map[string]bool {
 	return map[string]bool{
 		"verif": HaveCore, "verif_fiat": HaveFiat, "verif_swu": HaveSWU, "verif_mul": HaveMul,
-		"verif_secec": HaveSecec, "verif_btc": HaveBtc, "verif_h2c": HaveH2C,
+		"verif_secec": HaveSecec, "verif_btc": HaveBtc, "verif_btcparse": HaveBtcParse, "verif_h2c": HaveH2C,
 	}
 }
